@@ -340,7 +340,12 @@ Fixpoint serve_old (w from to : N) (l : list ent) (* oldest first *) : list ent 
       else let e' := cut_ent from e in
            if (en_first e' <? w) && (en_first e' <=? to) then e' :: serve_old w from to t else []
   end.
-Definition n_sync_serve (ns : nstate) (from to : N) : list ent := serve_old (ns_wm ns) from to (rev (ns_log ns)).
+(* the handler reads the commits with a partition scan, and a scan can show an OLDER confirmation count than the disk
+   holds (the segment block cache is not invalidated by set_confirmations - known finding stale-scan-count): the served
+   copy carries min(count on disk, [seen e]) for an arbitrary [seen] *)
+Definition n_sync_serve (ns : nstate) (seen : ent -> N) (from to : N) : list ent :=
+  map (fun e => ent_setcnt e (N.min (en_cnt e) (seen e))) (serve_old (ns_wm ns) from to (rev (ns_log ns))).
+Definition seen_exact : ent -> N := en_cnt.
 
 Definition n_sync_resp (cfg : config) (self : node) (orc : oracle) (ns : nstate) (cs : option (list ent))
   : nstate * list msg :=
@@ -482,7 +487,7 @@ Fixpoint orig_of (o : list (N * (node * N * N))) (T : N) : option (node * N * N)
 Inductive action :=
 | AView (n : node) (v : list (node * N))               (* membership gossip: any view of the partition's replicas *)
 | AClient (c : node) (T k : N) (orc : oracle)          (* a client write that reaches c *)
-| ADeliver (i : nat) (orc : oracle) (dbok : bool)      (* the i-th sent message is delivered (again) *)
+| ADeliver (i : nat) (orc : oracle) (dbok : bool) (seen : ent -> N)   (* the i-th sent message is delivered (again) *)
 | AFinish1 (c : node) (T : N) (dbok : bool)
 | AFinish2 (c : node) (T : N)
 | ATimeout (c : node) (T : N)
@@ -496,7 +501,7 @@ Definition view_ok (cfg : config) (self : node) (v : list (node * N)) : bool :=
   forallb (fun x => memb x (c_reps cfg)) ns && memb self ns
   && (fix nodup (l : list node) := match l with [] => true | x :: t => negb (memb x t) && nodup t end) ns.
 
-Definition deliver (cfg : config) (orc : oracle) (dbok : bool) (st : gstate) (m : msg) : gstate :=
+Definition deliver (cfg : config) (orc : oracle) (dbok : bool) (seen : ent -> N) (st : gstate) (m : msg) : gstate :=
   let nd := g_nodes st in
   match m with
   | MRep c r alive rid T ex k cnt =>
@@ -509,7 +514,7 @@ Definition deliver (cfg : config) (orc : oracle) (dbok : bool) (st : gstate) (m 
       let '(ns', _) := n_confirm (nd r) T s k cnt idsok dbok in
       mk_gs (upd nd r ns') (g_net st) (g_orig st)
   | MSyncReq r c from to =>
-      mk_gs nd (g_net st ++ [MSyncResp c r (if dbok then Some (n_sync_serve (nd c) from to) else None)]) (g_orig st)
+      mk_gs nd (g_net st ++ [MSyncResp c r (if dbok then Some (n_sync_serve (nd c) seen from to) else None)]) (g_orig st)
   | MSyncResp c r cs =>
       let '(ns', outs) := n_sync_resp cfg r orc (nd r) cs in
       mk_gs (upd nd r ns') (g_net st ++ outs) (g_orig st)
@@ -527,7 +532,7 @@ Definition g_step (cfg : config) (st : gstate) (a : action) : gstate :=
           let '(ns', outs) := n_client cfg c orc (nd c) T k in
           mk_gs (upd nd c ns') (g_net st ++ outs) ((T, (c, log_next (ns_log (nd c)), k)) :: g_orig st)
       end
-  | ADeliver i orc dbok => match nth_error (g_net st) i with Some m => deliver cfg orc dbok st m | None => st end
+  | ADeliver i orc dbok seen => match nth_error (g_net st) i with Some m => deliver cfg orc dbok seen st m | None => st end
   | AFinish1 c T dbok => let '(ns', outs) := n_finish1 cfg c (nd c) T dbok in mk_gs (upd nd c ns') (g_net st ++ outs) (g_orig st)
   | AFinish2 c T => let '(ns', outs) := n_finish2 cfg c (nd c) T in mk_gs (upd nd c ns') (g_net st ++ outs) (g_orig st)
   | ATimeout c T => let '(ns', outs) := n_timeout c (nd c) T in mk_gs (upd nd c ns') (g_net st ++ outs) (g_orig st)
@@ -570,7 +575,7 @@ Fixpoint y_settle (fuel : nat) (cfg : config) (orc : oracle) (x : nstate) (ynode
       let '(y1, reqs) := n_tick ynode y in
       match reqs with
       | MSyncReq _ _ from to :: _ =>
-          let '(y2, outs) := n_sync_resp cfg ynode orc y1 (Some (n_sync_serve x from to)) in
+          let '(y2, outs) := n_sync_resp cfg ynode orc y1 (Some (n_sync_serve x seen_exact from to)) in
           if (log_next (ns_log y2) =? log_next (ns_log y)) then (y2, outs)
           else let '(y3, outs3) := y_settle f cfg orc x ynode y2 in (y3, outs ++ outs3)
       | _ => (y1, [])
